@@ -29,7 +29,7 @@ Qed.
 
 Definition with_f (E : env) (g : list (eF E) -> option (list (eF E))) : env :=
   mkEnv (eF E) (e_zero E) (e_one E) (e_half E) (e_add E) (e_sub E) (e_mul E) (e_div E) (e_abs E) (e_ltb E) (e_leb E)
-        (e_tolj E) (e_ten E) (e_hundred E) (e_atol E) (e_lo E) (e_hi E) g (e_pen E) (e_newton E) (e_broyden E).
+        (e_tolj E) (e_ten E) (e_hundred E) (e_atol E) (e_lo E) (e_hi E) g (e_pen E) (e_newton E) (e_broyden E) (e_log10 E).
 
 Section Nonint.
   Variable E : env.
@@ -80,14 +80,24 @@ Section Nonint.
   Definition off (act : list bool) : Prop := nth j act false = false.
 
   (* ---- masked quantities do not see component j ------------------------------------------- *)
-  Lemma masked_eq : forall (jj : nat) (a b tv : list F) (act : list bool),
+  Lemma masked_eq : forall (jj : nat) (a b tv : list F) (act lg : list bool),
     agree_off jj a b -> nth jj act false = false ->
-    map2 (fun e (c : bool) => if c then e else e_zero E) (map2 (e_sub E) a tv) act =
-    map2 (fun e (c : bool) => if c then e else e_zero E) (map2 (e_sub E) b tv) act.
+    res_pen E (map2 (e_sub E) a tv) act lg a tv = res_pen E (map2 (e_sub E) b tv) act lg b tv.
   Proof.
-    intros jj a; revert jj; induction a as [|x a IH]; intros jj [|y b] tv act; cbn; try tauto.
-    destruct tv as [|t tv]; [reflexivity|]. destruct act as [|c act]; [reflexivity|]. cbn.
-    destruct jj as [|jj]; cbn.
+    intros jj a; revert jj; induction a as [|x a IH]; intros jj [|y b] tv act lg; cbn [agree_off]; try tauto.
+    destruct tv as [|t tv]; [reflexivity|]. destruct act as [|c act]; [reflexivity|]. cbn [map2 res_pen hd tl].
+    destruct jj as [|jj]; cbn [nth].
+    - intros -> ->. reflexivity.
+    - intros [-> H] Hc. f_equal. apply (IH jj); auto.
+  Qed.
+
+  Lemma log_bad_eq : forall (jj : nat) (a b tv : list F) (act lg : list bool),
+    agree_off jj a b -> nth jj act false = false ->
+    log_bad E act lg a tv = log_bad E act lg b tv.
+  Proof.
+    intros jj a; revert jj; induction a as [|x a IH]; intros jj [|y b] tv act lg; cbn [agree_off]; try tauto.
+    destruct act as [|c act]; [reflexivity|]. destruct tv as [|t tv]; [reflexivity|]. cbn [log_bad].
+    destruct jj as [|jj]; cbn [nth].
     - intros -> ->. reflexivity.
     - intros [-> H] Hc. f_equal. apply (IH jj); auto.
   Qed.
@@ -132,11 +142,18 @@ Section Nonint.
     destruct e.
     - cbn. split; auto. unfold stR; stsimpl. repeat split; auto.
     - pose proof (fR k') as Hf. destruct (f1 k') as [r1|], (f2 k') as [r2|]; try tauto.
-      + cbn. split.
-        * unfold merit_out, residual. cbn [e_sub e_zero e_mul with_f]. f_equal. apply (masked_eq j); auto.
+      + change (log_bad E2) with (log_bad E). change (log_bad E1) with (log_bad E).
+        rewrite (log_bad_eq j r1 r2 (c_tval cf) (ta s1) (c_tlog cf) Hf Hoff).
+        assert (Hwi : all_ok (within E1 cf r1) (ta s1) = all_ok (within E2 cf r2) (ta s1)).
+        { unfold all_ok, within, residual. cbn [e_sub e_ltb e_abs with_f]. f_equal. apply (allok_eq j); auto. }
+        assert (Hwa : agree_off j (within E1 cf r1) (within E2 cf r2)).
+        { unfold within, residual. cbn [e_sub e_ltb e_abs with_f]. apply within_agree; auto. }
+        destruct (log_bad E (ta s1) (c_tlog cf) r2 (c_tval cf)).
+        { cbn. split; auto. unfold stR; stsimpl. repeat split; auto. }
+        cbn. split.
+        * unfold merit_out, residual. change (res_pen E2) with (res_pen E). change (res_pen E1) with (res_pen E).
+          cbn [e_sub e_zero e_mul with_f]. f_equal. apply (masked_eq j); auto.
         * unfold stR; stsimpl. repeat split; auto.
-          -- unfold all_ok, within, residual. cbn [e_sub e_ltb e_abs with_f]. f_equal. apply (allok_eq j); auto.
-          -- unfold within, residual. cbn [e_sub e_ltb e_abs with_f]. apply within_agree; auto.
       + cbn. split; auto. unfold stR; stsimpl. repeat split; auto.
   Qed.
 
